@@ -128,6 +128,18 @@ func HFault() {
 		root = vC03Base + head + vIndent(f.text, 2) + ")\nPASTE @faulty\n"
 		holderFile, holderText, textAt = "root.jst", root, len(vC03Base)+len(head)
 	}
+	// layout of the whole project (all files alike): LF / CRLF / CR line ends; the line of the
+	// fault does not move (wantLine is computed on the LF text)
+	if conv := vInt("conv", 0, 2); conv != 0 {
+		nl := "\r\n"
+		if conv == 2 {
+			nl = "\r"
+		}
+		root = strings.ReplaceAll(root, "\n", nl)
+		for k, v := range files {
+			files[k] = strings.ReplaceAll(v, "\n", nl)
+		}
+	}
 	c, je := vBuildProject(root, files)
 	_ = c
 	vAssert(je != nil, "c03-fault-accepted-"+f.name)
